@@ -52,8 +52,16 @@ def _selection(prog, f):
                 continue
             v = lp.target.id
             for pth in P_.enum_paths(lp.body):
-                ys = [i for i, e in enumerate(pth.events) if e[0] == "stmt" and any(
-                    isinstance(x, ast.Yield) and dotted(x.value) == v for x in ast.walk(e[1]))]
+                def uses(stn):
+                    """the element is handed out (yield) or handed on (argument of a call, `cast(...)` aside)"""
+                    for x in ast.walk(stn):
+                        if isinstance(x, ast.Yield) and x.value is not None and P_.norm(x.value, al) == v:
+                            return True
+                        if isinstance(x, ast.Call) and dotted(x.func) != "cast" and any(
+                                P_.norm(a_.args[-1] if isinstance(a_, ast.Call) and dotted(a_.func) == "cast" and a_.args else a_, al) == v for a_ in x.args):
+                            return True
+                    return False
+                ys = [i for i, e in enumerate(pth.events) if e[0] == "stmt" and uses(e[1])]
                 if not ys:
                     continue
                 for a in P_.facts(pth, ys[0], al):
